@@ -33,7 +33,9 @@ FILE_PROPS = [
     (r"^src/(bench|main)\.rs$", ["C16"]),
 ]
 
-MUTABLE = r"(Atomic\w+|Mutex|RwLock|OnceLock|OnceCell|LazyLock|LazyCell|Lazy|RefCell|Cell|UnsafeCell|Condvar|Once)\b"
+# write-once wrappers (`OnceLock`, `LazyLock`, …) around plain data are tables, not state; they count only when the wrapped type
+# is itself mutable (`OnceLock<Mutex<…>>`)
+MUTABLE = r"\b(Atomic\w+|Mutex|RwLock|RefCell|Cell|UnsafeCell|Condvar)\b"
 
 
 def props_of(path):
@@ -179,6 +181,10 @@ def field_name(f):
     return f.split(":")[0].strip()
 
 
+def field_type(f):
+    return f.split(":", 1)[1].strip() if ":" in f else ""
+
+
 def drift(repo):
     """state present in the source and absent from the baseline: [{file, item, props}]"""
     base = json.load(open(BASELINE))["files"] if os.path.exists(BASELINE) else {}
@@ -187,8 +193,13 @@ def drift(repo):
         b = base.get(rel, {"cells": [], "structs": {}})
         new_file = rel not in base
         bc = {c.split(":")[0] for c in b["cells"]}
+        cur = {c.split(":")[0] for c in inv["cells"]}
+        gone_cells = [field_type(c) for c in b["cells"] if c.split(":")[0] not in cur]
         for c in inv["cells"]:
             if c.split(":")[0] not in bc:
+                if field_type(c) in gone_cells:      # renamed, same type
+                    gone_cells.remove(field_type(c))
+                    continue
                 out.append({"file": rel, "item": c, "props": props_of(rel)})
         for sname, fl in inv["structs"].items():
             bf = b["structs"].get(sname)
@@ -203,8 +214,13 @@ def drift(repo):
                 if len(fl) > len(bf):
                     out.append({"file": rel, "item": f"struct {sname}: tuple field added ({fl})", "props": props_of(rel)})
                 continue
+            # a field that merely changed its name (another field of the same type disappeared) is not new state
+            gone_types = [field_type(x) for x in bf if field_name(x) not in {field_name(y) for y in fl}]
             for x in fl:
                 if field_name(x) not in names:
+                    if field_type(x) in gone_types:
+                        gone_types.remove(field_type(x))
+                        continue
                     out.append({"file": rel, "item": f"struct {sname}: field {x}", "props": props_of(rel)})
     return out
 
